@@ -1,6 +1,7 @@
 import LyModel.XPath.Eval
 import LyModel.XPath.FloatNum
 import LyModel.XPath.Set
+import LyModel.XPath.Canon
 /-!
 driver ops of component `xpath` (C08).  The driver is stateless, so every evaluation request carries the document:
 
@@ -10,11 +11,21 @@ driver ops of component `xpath` (C08).  The driver is stateless, so every evalua
   i.e. the deviations of libyang recorded as known findings and not yet repaired
 * `find  <ctx> <expr-hex> <ast-hex> <dump-hex>`     -> node-set or `err NotNodeSet`
 * `evalq <mask> <ctx> <expr-hex> <ast-hex> <dump-hex>` -> typed result with the given `Quirks` mask (0 = XPath 1.0 REC)
+  In all three the expression evaluated is `<expr-hex>`, THE TEXT, parsed by `Parse.parse` (the model of `lyxp_expr_parse`);
+  `<ast-hex>` (`-` = absent) is the prefix form python derived from its own AST and must denote the same tree
+  (`err AstMismatch` otherwise).
+* `xplex <expr-hex>`   -> `ok <n> (<kind>:<pos>:<len>)*` | `err Lex`           (`lyxp_expr_parse`, `reparse = 0`)
+* `xpparse <expr-hex>` -> `ok <n> (<kind>:<pos>:<len>:<repeat>)*` | `err Lex` | `err Parse`   (`reparse = 1`; repeat = `-` or the
+  digits of `exp->repeat[i]`)
+* `xpast <expr-hex>`   -> `ok <hex of the prefix form of the parsed tree>` | `err Lex` | `err Parse`        (model only)
+* `xprender <ast-hex>` -> `ok <hex of the canonical text>` | `err NotWf` (no canonical text: `Canon.wf`)        (model only)
 -/
 namespace LyModel.XPath.Drv
 open LyModel LyModel.XPath
 
 def bstr (b : Bytes) : String := String.ofList (b.map fun x => Char.ofNat x.toNat)
+/-- inverse of `bstr` -/
+def unbstr (s : String) : Bytes := s.toList.map fun c => UInt8.ofNat c.toNat
 
 /-- dump: one line per element `<depth> <module> <name> <kind> <value-hex> <basetype>` in document order -/
 def parseDump (b : Bytes) : Option Doc := do
@@ -86,11 +97,12 @@ partial def pStep : List String → Option (Step × List String)
   | "S" :: ax :: r => do
     let a ← axisOf ax
     let (t, r1) ← (match r with
-      | "n" :: p :: name :: t => some (Test.name (if p == "_" then none else some p.toUTF8.toList) name.toUTF8.toList, t)
+      | "n" :: p :: name :: t => some (Test.name (if p == "_" then none else some (unbstr p)) (unbstr name), t)
       | "a" :: t => some (Test.any, t)
-      | "m" :: p :: t => some (Test.anyIn p.toUTF8.toList, t)
+      | "m" :: p :: t => some (Test.anyIn (unbstr p), t)
       | "o" :: t => some (Test.node, t)
       | "t" :: t => some (Test.text, t)
+      | "c" :: t => some (Test.comment, t)
       | _ => none)
     match r1 with
     | n :: r2 => do
@@ -112,6 +124,79 @@ def parseAst (b : Bytes) : Option Expr :=
   | some (e, []) => some e
   | _ => none
 
+
+/-! the same prefix form, printed (ops `xpast`, and the cross-check of the two routes in `eval` / `find`) -/
+def axisName : Axis → String
+  | .child => "child" | .descendant => "descendant" | .parent => "parent" | .ancestor => "ancestor"
+  | .followingSibling => "following-sibling" | .precedingSibling => "preceding-sibling" | .following => "following"
+  | .preceding => "preceding" | .attribute => "attribute" | .self => "self" | .descendantOrSelf => "descendant-or-self"
+  | .ancestorOrSelf => "ancestor-or-self"
+
+def opName : BinOp → String
+  | .or => "or" | .and => "and" | .eq => "eq" | .ne => "ne" | .lt => "lt" | .le => "le" | .gt => "gt" | .ge => "ge"
+  | .add => "add" | .sub => "sub" | .mul => "mul" | .div => "div" | .mod => "mod" | .union => "union"
+
+def showTest : Test → String
+  | .name none l => "n _ " ++ bstr l
+  | .name (some p) l => "n " ++ bstr p ++ " " ++ bstr l
+  | .any => "a" | .anyIn p => "m " ++ bstr p | .node => "o" | .text => "t" | .comment => "c"
+
+mutual
+def showAst : Expr → String
+  | .lit s => "L " ++ Hex.enc s
+  | .num m sc => "N " ++ toString m ++ " " ++ toString sc
+  | .fn name as => "F " ++ name ++ " " ++ toString as.length ++ showList as
+  | .bin op a b => "B " ++ opName op ++ " " ++ showAst a ++ " " ++ showAst b
+  | .neg a => "M " ++ showAst a
+  | .path .root steps => "P R " ++ toString steps.length ++ showSteps steps
+  | .path .ctx steps => "P C " ++ toString steps.length ++ showSteps steps
+  | .path (.expr e) steps => "P E " ++ showAst e ++ " " ++ toString steps.length ++ showSteps steps
+  | .filter e ps => "X " ++ showAst e ++ " " ++ toString ps.length ++ showList ps
+def showList : List Expr → String
+  | [] => ""
+  | a :: r => " " ++ showAst a ++ showList r
+def showSteps : List Step → String
+  | [] => ""
+  | .mk ax t ps :: r => " S " ++ axisName ax ++ " " ++ showTest t ++ " " ++ toString ps.length ++ showList ps ++ showSteps r
+end
+
+def showTok (t : Lex.Tok) : String := toString t.kind.code ++ ":" ++ toString t.pos ++ ":" ++ toString t.len
+
+def showRep (l : List Nat) : String := if l.isEmpty then "-" else String.join (l.map toString)
+
+def xplex (h : String) : String :=
+  match Hex.dec h with
+  | none => "err BadArg"
+  | some s =>
+    if s.contains 0 then "err BadArg" else
+    match Lex.lex s with
+    | .ok ts => "ok " ++ toString ts.length ++ String.join (ts.map fun t => " " ++ showTok t)
+    | .error (.at _) => "err Lex"
+    | .error .fuel => "err Fuel"
+
+def xpparse (h : String) : String :=
+  match Hex.dec h with
+  | none => "err BadArg"
+  | some s =>
+    if s.contains 0 then "err BadArg" else
+    match Parse.parseFull s with
+    | .ok (ts, _, ps) =>
+      "ok " ++ toString ts.length ++ String.join (ts.zipIdx.map fun (t, i) =>
+        " " ++ showTok t ++ ":" ++ showRep (Parse.repeatOf ts.length ps i))
+    | .error (.lex _) => "err Lex"
+    | .error .fuel => "err Fuel"
+    | .error .parse => "err Parse"
+
+def xpast (h : String) : String :=
+  match Hex.dec h with
+  | none => "err BadArg"
+  | some s =>
+    match Parse.parseFull s with
+    | .ok (_, e, _) => "ok " ++ Hex.enc (unbstr (showAst e))
+    | .error (.lex _) => "err Lex"
+    | .error .fuel => "err Fuel"
+    | .error .parse => "err Parse"
+
 def numTok (x : Float) : String :=
   if x.isNaN then "NaN"
   else if x.isInf then (if x > 0 then "Inf" else "-Inf")
@@ -127,11 +212,26 @@ def render : Except Err (Value Float) → String
 
 def allMask : Nat := 8191
 
-def run (mask : Nat) (ctx astH dumpH : String) (findOnly : Bool) : String :=
-  match ctx.toNat?, Hex.dec astH, Hex.dec dumpH with
-  | some c, some ab, some db =>
-    match parseAst ab, parseDump db with
-    | some e, some d =>
+/-- the expression of an `eval` / `find` request: THE TEXT, parsed by the model of libyang's parser; when the request also
+carries the pre-parsed prefix form (`ast-hex` other than `-`), both routes must give the same tree -/
+def exprOf (exprH astH : String) : Except String Expr :=
+  match Hex.dec exprH with
+  | none => .error "err BadArg"
+  | some tx =>
+    match Parse.parse tx with
+    | none => .error "err ParseText"
+    | some e =>
+      if astH == "-" then .ok e else
+      match (Hex.dec astH).bind parseAst with
+      | none => .error "err BadAst"
+      | some e2 => if showAst e == showAst e2 then .ok e else .error ("err AstMismatch " ++ Hex.enc (unbstr (showAst e)))
+
+def run (mask : Nat) (ctx exprH astH dumpH : String) (findOnly : Bool) : String :=
+  match ctx.toNat?, Hex.dec dumpH with
+  | some c, some db =>
+    match exprOf exprH astH, parseDump db with
+    | .error m, _ => m
+    | .ok e, some d =>
       if c > d.elems.size then "err NoTree" else
       let env : Env := { doc := d, q := Quirks.ofMask mask, cur := 2 * c }
       let r : Except Err (Value Float) := eval env e { node := 2 * c, pos := 1, size := 1 }
@@ -141,9 +241,8 @@ def run (mask : Nat) (ctx astH dumpH : String) (findOnly : Bool) : String :=
         | .ok _ => "err Inval"
         | .error _ => render r
       else render r
-    | none, _ => "err BadAst"
     | _, none => "err BadDump"
-  | _, _, _ => "err BadArg"
+  | _, _ => "err BadArg"
 
 def parseItems (s : String) : Option (List Set.Item) :=
   if s == "-" then some [] else
@@ -191,14 +290,21 @@ def handle (op : String) (args : List String) : String :=
       | some d => "ok " ++ toString d.elems.size
       | none => "err BadDump"
     | none => "err BadHex"
-  | "eval", [ctx, _, astH, dumpH] => run allMask ctx astH dumpH false
-  | "find", [ctx, _, astH, dumpH] => run allMask ctx astH dumpH true
-  | "eval", [ctx, _, astH, dumpH, mask] => run (mask.toNat?.getD allMask) ctx astH dumpH false
-  | "find", [ctx, _, astH, dumpH, mask] => run (mask.toNat?.getD allMask) ctx astH dumpH true
-  | "evalq", [mask, ctx, _, astH, dumpH] =>
+  | "eval", [ctx, exprH, astH, dumpH] => run allMask ctx exprH astH dumpH false
+  | "find", [ctx, exprH, astH, dumpH] => run allMask ctx exprH astH dumpH true
+  | "eval", [ctx, exprH, astH, dumpH, mask] => run (mask.toNat?.getD allMask) ctx exprH astH dumpH false
+  | "find", [ctx, exprH, astH, dumpH, mask] => run (mask.toNat?.getD allMask) ctx exprH astH dumpH true
+  | "evalq", [mask, ctx, exprH, astH, dumpH] =>
     match mask.toNat? with
-    | some m => run m ctx astH dumpH false
+    | some m => run m ctx exprH astH dumpH false
     | none => "err BadArg"
+  | "xplex", [h] => xplex h
+  | "xpparse", [h] => xpparse h
+  | "xpast", [h] => xpast h
+  | "xprender", [h] =>
+    match (Hex.dec h).bind parseAst with
+    | some e => if Canon.wf e then "ok " ++ Hex.enc (Render.render e) else "err NotWf"
+    | none => "err BadAst"
   | _, _ => "err BadOp"
 
 end LyModel.XPath.Drv
